@@ -33,6 +33,9 @@ type Hook func(op string, n, seq int, ctx context.Context) Action
 // Base wraps an EventStore; every call goes through the Hook.
 type Base struct {
 	Inner eventbus.EventStore
+	// SubInner, if set, receives SaveOffset/LoadOffset (a separate
+	// subscription store sharing this wrapper's counters and crash state).
+	SubInner eventbus.SubscriptionStore
 	mu    sync.Mutex
 	hook  Hook
 	count map[string]int
@@ -43,6 +46,34 @@ type Base struct {
 	Saves [][2]string
 	// Appends counts Append calls that reached the wrapper.
 	Appends int
+	// AfterOp, if set, is called after every operation that completed on the
+	// inner store (before a CrashAfter/ErrAfter action takes effect).
+	AfterOp func(op string)
+	// dead is set by a crash: from then on nothing reaches the inner store.
+	dead bool
+}
+
+// Dead reports whether a crash was injected (the "process" is gone).
+func (b *Base) Dead() bool {
+	b.mu.Lock()
+	defer b.mu.Unlock()
+	return b.dead
+}
+
+// Revive clears the crash state and the per-run counters (a new run begins).
+func (b *Base) Revive() {
+	b.mu.Lock()
+	b.dead = false
+	b.count = map[string]int{}
+	b.seq = 0
+	b.mu.Unlock()
+}
+
+// Kill marks the process dead without panicking (shared between wrappers).
+func (b *Base) Kill() {
+	b.mu.Lock()
+	b.dead = true
+	b.mu.Unlock()
 }
 
 func (b *Base) SetHook(h Hook) {
@@ -53,6 +84,10 @@ func (b *Base) SetHook(h Hook) {
 
 func (b *Base) next(op string, ctx context.Context) Action {
 	b.mu.Lock()
+	if b.dead {
+		b.mu.Unlock()
+		panic(Crash{At: "dead"})
+	}
 	if b.count == nil {
 		b.count = map[string]int{}
 	}
@@ -69,7 +104,18 @@ func (b *Base) next(op string, ctx context.Context) Action {
 func (b *Base) done(op string) {
 	b.mu.Lock()
 	b.Ops = append(b.Ops, op)
+	f := b.AfterOp
 	b.mu.Unlock()
+	if f != nil {
+		f(op)
+	}
+}
+
+func (b *Base) crash(at string) {
+	b.mu.Lock()
+	b.dead = true
+	b.mu.Unlock()
+	panic(Crash{At: at})
 }
 
 // Seq returns the number of store operations started so far.
@@ -79,9 +125,9 @@ func (b *Base) Seq() int {
 	return b.seq
 }
 
-func pre(a Action, op string, ctx context.Context) error {
+func (b *Base) pre(a Action, op string, ctx context.Context) error {
 	if a.CrashBefore {
-		panic(Crash{At: "before " + op})
+		b.crash("before " + op)
 	}
 	if a.Block {
 		if ctx.Done() == nil {
@@ -94,9 +140,9 @@ func pre(a Action, op string, ctx context.Context) error {
 	return a.Err
 }
 
-func post(a Action, op string) error {
+func (b *Base) post(a Action, op string) error {
 	if a.CrashAfter {
-		panic(Crash{At: "after " + op})
+		b.crash("after " + op)
 	}
 	return a.ErrAfter
 }
@@ -106,13 +152,13 @@ func (b *Base) Append(ctx context.Context, e *eventbus.Event) (eventbus.Offset, 
 	b.Appends++
 	b.mu.Unlock()
 	a := b.next("append", ctx)
-	if err := pre(a, "append", ctx); err != nil {
+	if err := b.pre(a, "append", ctx); err != nil {
 		return "", err
 	}
 	off, err := b.Inner.Append(ctx, e)
 	if err == nil {
 		b.done("append")
-		if perr := post(a, "append"); perr != nil {
+		if perr := b.post(a, "append"); perr != nil {
 			return "", perr
 		}
 	}
@@ -121,13 +167,13 @@ func (b *Base) Append(ctx context.Context, e *eventbus.Event) (eventbus.Offset, 
 
 func (b *Base) Read(ctx context.Context, from eventbus.Offset, limit int) ([]*eventbus.StoredEvent, eventbus.Offset, error) {
 	a := b.next("read", ctx)
-	if err := pre(a, "read", ctx); err != nil {
+	if err := b.pre(a, "read", ctx); err != nil {
 		return nil, from, err
 	}
 	evs, next, err := b.Inner.Read(ctx, from, limit)
 	if err == nil {
 		b.done("read")
-		if perr := post(a, "read"); perr != nil {
+		if perr := b.post(a, "read"); perr != nil {
 			return nil, from, perr
 		}
 	}
@@ -144,7 +190,7 @@ func (b *Base) Close() error {
 func (b *Base) readStream(ctx context.Context, from eventbus.Offset) iter.Seq2[*eventbus.StoredEvent, error] {
 	return func(yield func(*eventbus.StoredEvent, error) bool) {
 		a := b.next("stream", ctx)
-		if err := pre(a, "stream", ctx); err != nil {
+		if err := b.pre(a, "stream", ctx); err != nil {
 			yield(nil, err)
 			return
 		}
@@ -155,7 +201,7 @@ func (b *Base) readStream(ctx context.Context, from eventbus.Offset) iter.Seq2[*
 				return
 			}
 			ra := b.next("row", ctx)
-			if rerr := pre(ra, "row", ctx); rerr != nil {
+			if rerr := b.pre(ra, "row", ctx); rerr != nil {
 				yield(nil, rerr)
 				return
 			}
@@ -163,25 +209,32 @@ func (b *Base) readStream(ctx context.Context, from eventbus.Offset) iter.Seq2[*
 				return
 			}
 			if ra.CrashAfter {
-				panic(Crash{At: "after row"})
+				b.crash("after row")
 			}
 		}
 		b.done("stream")
 	}
 }
 
+func (b *Base) subStore() eventbus.SubscriptionStore {
+	if b.SubInner != nil {
+		return b.SubInner
+	}
+	return b.Inner.(eventbus.SubscriptionStore)
+}
+
 func (b *Base) saveOffset(ctx context.Context, id string, off eventbus.Offset) error {
 	a := b.next("save", ctx)
-	if err := pre(a, "save", ctx); err != nil {
+	if err := b.pre(a, "save", ctx); err != nil {
 		return err
 	}
-	err := b.Inner.(eventbus.SubscriptionStore).SaveOffset(ctx, id, off)
+	err := b.subStore().SaveOffset(ctx, id, off)
 	if err == nil {
 		b.mu.Lock()
 		b.Saves = append(b.Saves, [2]string{id, string(off)})
 		b.mu.Unlock()
 		b.done("save")
-		if perr := post(a, "save"); perr != nil {
+		if perr := b.post(a, "save"); perr != nil {
 			return perr
 		}
 	}
@@ -190,13 +243,13 @@ func (b *Base) saveOffset(ctx context.Context, id string, off eventbus.Offset) e
 
 func (b *Base) loadOffset(ctx context.Context, id string) (eventbus.Offset, error) {
 	a := b.next("load", ctx)
-	if err := pre(a, "load", ctx); err != nil {
+	if err := b.pre(a, "load", ctx); err != nil {
 		return eventbus.OffsetOldest, err
 	}
-	off, err := b.Inner.(eventbus.SubscriptionStore).LoadOffset(ctx, id)
+	off, err := b.subStore().LoadOffset(ctx, id)
 	if err == nil {
 		b.done("load")
-		if perr := post(a, "load"); perr != nil {
+		if perr := b.post(a, "load"); perr != nil {
 			return eventbus.OffsetOldest, perr
 		}
 	}
